@@ -32,6 +32,8 @@ def run(pid, spec, tier, seed, merged, drv):
     binary = drv.build_mon()
     if pid == "C15":
         return c15(spec, tier, seed, merged, drv, params, binary)
+    if pid in ("C16", "C17"):
+        return web(pid, spec, tier, seed, merged, drv, params)
     drv.mon_leg(merged, binary, pid, seed, tier, params)
     if pid == "C14":
         # CLI export / import / never-overwrite, for both CLI builds whose import code differs
@@ -166,4 +168,32 @@ def c12(spec, tier, seed, merged, drv, params):
     merged.counters["probe_lines_compared"] = compared
     merged.counters["probe_memo_lines_skipped_as_documented"] = skipped
     merged.legs.append("probe x %d feature sets" % len(binaries))
+    shutil.rmtree(tmp, ignore_errors=True)
+
+
+def web(pid, spec, tier, seed, merged, drv, params):
+    server = drv.build_server()
+    websim = drv.build_websim()
+    tmp = os.path.join(drv.CACHE, "run", "web-%s-%d" % (pid, os.getpid()))
+    os.makedirs(tmp, exist_ok=True)
+    shards = params.get("shards", 8)
+    cmds = []
+    env = drv.env_offline()
+    env.pop("WEBSIM_ISOLATED", None)
+    for sh in range(shards):
+        out = os.path.join(tmp, "shard%d.json" % sh)
+        cmd = [websim, pid.lower(), "--server", server, "--seed", str(seed), "--shard", str(sh),
+               "--cases", str(params.get("cases", 10)), "--out", out, "--work", os.path.join(tmp, "work%d" % sh)]
+        if tier == "thorough":
+            cmd.append("--thorough")
+        for k, v in params.get("args", {}).items():
+            cmd += ["--" + k, str(v)]
+        cmds.append((cmd, out, env))
+    res = drv.run_shards(cmds, params.get("timeout", 1800), pid)
+    for sh, (rep, rc, note) in enumerate(res):
+        if rep is None:
+            merged.inconclusive.append("websim shard %d: %s" % (sh, note))
+        else:
+            merged.add(rep, "main")
+    merged.legs.append("websim x %d servers" % shards)
     shutil.rmtree(tmp, ignore_errors=True)
